@@ -237,4 +237,78 @@ theorem translate_2_quantities (fuel : Nat) (buf : List Int) (e c0 c1 d0 d1 : In
         cases Src.C15.WrappableGrid.translate_2.loop3 e (firstSlab n1 d1 : Nat) c0 c1 (newOffset n0 o0 d0 : Nat) o1 (lastSlab n1 d1 : Nat)
           n0 n1 fuel r.1 0 (firstSlab n1 d1 : Nat) false <;> rfl
 
+
+/-! ### `translate`, DIM = 3: the per-axis quantities
+
+`WrappableGrid<int,3>::translate` is translated the same way: the axis loop unrolled three times, the blanking loop one auxiliary function
+per place it occurs — seven copies: `translate_3.loop4` (axis 0), `loop2` / `loop6` (axis 1: after a skipped / a processed axis 0),
+`loop1` / `loop3` / `loop5` / `loop7` (axis 2). The copies for one axis are the same function (`loopA_eq_loopB_3`). -/
+
+private theorem loop2_eq_loop6_3 (e f c0 c1 c2 o0 o1 o2 l n0 n1 n2 : Int) (fuel : Nat) (buf : List Int) (x0 x1 x2 : Int) (done : Bool) :
+    Src.C15.WrappableGrid.translate_3.loop2 e f c0 c1 c2 o0 o1 o2 l n0 n1 n2 fuel buf x0 x1 x2 done
+      = Src.C15.WrappableGrid.translate_3.loop6 e f c0 c1 c2 o0 o1 o2 l n0 n1 n2 fuel buf x0 x1 x2 done := by
+  induction fuel generalizing buf x0 x1 x2 done with
+  | zero => rfl
+  | succ k ih =>
+    unfold Src.C15.WrappableGrid.translate_3.loop2 Src.C15.WrappableGrid.translate_3.loop6
+    simp only [ih]
+
+private theorem loop1_eq_loop7_3 (e f c0 c1 c2 o0 o1 o2 l n0 n1 n2 : Int) (fuel : Nat) (buf : List Int) (x0 x1 x2 : Int) (done : Bool) :
+    Src.C15.WrappableGrid.translate_3.loop1 e f c0 c1 c2 o0 o1 o2 l n0 n1 n2 fuel buf x0 x1 x2 done
+      = Src.C15.WrappableGrid.translate_3.loop7 e f c0 c1 c2 o0 o1 o2 l n0 n1 n2 fuel buf x0 x1 x2 done := by
+  induction fuel generalizing buf x0 x1 x2 done with
+  | zero => rfl
+  | succ k ih =>
+    unfold Src.C15.WrappableGrid.translate_3.loop1 Src.C15.WrappableGrid.translate_3.loop7
+    simp only [ih]
+
+private theorem loop3_eq_loop7_3 (e f c0 c1 c2 o0 o1 o2 l n0 n1 n2 : Int) (fuel : Nat) (buf : List Int) (x0 x1 x2 : Int) (done : Bool) :
+    Src.C15.WrappableGrid.translate_3.loop3 e f c0 c1 c2 o0 o1 o2 l n0 n1 n2 fuel buf x0 x1 x2 done
+      = Src.C15.WrappableGrid.translate_3.loop7 e f c0 c1 c2 o0 o1 o2 l n0 n1 n2 fuel buf x0 x1 x2 done := by
+  induction fuel generalizing buf x0 x1 x2 done with
+  | zero => rfl
+  | succ k ih =>
+    unfold Src.C15.WrappableGrid.translate_3.loop3 Src.C15.WrappableGrid.translate_3.loop7
+    simp only [ih]
+
+private theorem loop5_eq_loop7_3 (e f c0 c1 c2 o0 o1 o2 l n0 n1 n2 : Int) (fuel : Nat) (buf : List Int) (x0 x1 x2 : Int) (done : Bool) :
+    Src.C15.WrappableGrid.translate_3.loop5 e f c0 c1 c2 o0 o1 o2 l n0 n1 n2 fuel buf x0 x1 x2 done
+      = Src.C15.WrappableGrid.translate_3.loop7 e f c0 c1 c2 o0 o1 o2 l n0 n1 n2 fuel buf x0 x1 x2 done := by
+  induction fuel generalizing buf x0 x1 x2 done with
+  | zero => rfl
+  | succ k ih =>
+    unfold Src.C15.WrappableGrid.translate_3.loop5 Src.C15.WrappableGrid.translate_3.loop7
+    simp only [ih]
+
+/-- one pass of the axis loop of the three-axis instantiation, written with the MODEL's per-axis quantities (cf. `axisPass`) -/
+def axisPass3 (blank : Int → Int → Option (List Int × Int × Int × Int × Bool)) (n o : Nat) (d : Int) (buf : List Int) :
+    Option (List Int × Int) :=
+  if d = 0 then some (buf, (o : Int))
+  else match blank (firstSlab n d : Nat) (lastSlab n d : Nat) with
+    | none => none
+    | some r => some (r.1, ((newOffset n o d : Nat) : Int))
+
+/-- **`WrappableGrid<int,3>::translate`: the per-axis quantities are the model's.** The translated function is axis 0, then axis 1, then
+    axis 2; each axis does nothing on a zero offset and otherwise runs the translated blanking loop from `cellIndexes[axis] = firstSlab`
+    (other components 0, `done = false`) with the model's `firstSlab` / `lastSlab`, seeing the offsets accumulated SO FAR, and then stores
+    the model's `newOffset` (sizes below 2^63, so that `static_cast<long long>(size_t)` is the identity) -/
+theorem translate_3_quantities (fuel : Nat) (buf : List Int) (e c0 c1 c2 d0 d1 d2 : Int) (o0 o1 o2 n0 n1 n2 : Nat)
+    (h0 : n0 < 2 ^ 63) (h1 : n1 < 2 ^ 63) (h2 : n2 < 2 ^ 63) :
+    Src.C15.WrappableGrid.translate_3 fuel buf e c0 c1 c2 d0 d1 d2 o0 o1 o2 n0 n1 n2
+      = match axisPass3 (fun f l => Src.C15.WrappableGrid.translate_3.loop4 e f c0 c1 c2 o0 o1 o2 l n0 n1 n2 fuel buf f 0 0 false) n0 o0 d0 buf with
+        | none => none
+        | some (b1, o0') =>
+          match axisPass3 (fun f l => Src.C15.WrappableGrid.translate_3.loop6 e f c0 c1 c2 o0' o1 o2 l n0 n1 n2 fuel b1 0 f 0 false) n1 o1 d1 b1 with
+          | none => none
+          | some (b2, o1') =>
+            match axisPass3 (fun f l => Src.C15.WrappableGrid.translate_3.loop7 e f c0 c1 c2 o0' o1' o2 l n0 n1 n2 fuel b2 0 0 f false) n2 o2 d2 b2 with
+            | none => none
+            | some (b3, o2') => some (b3, o0', o1', o2') := by
+  unfold Src.C15.WrappableGrid.translate_3 axisPass3
+  simp only [cells_cast n0 h0, cells_cast n1 h1, cells_cast n2 h2, slabs_eq, firstSlab_cast, lastSlab_cast, newOffset_cast,
+    loop2_eq_loop6_3, loop1_eq_loop7_3, loop3_eq_loop7_3, loop5_eq_loop7_3, Int.natCast_zero]
+  by_cases hd0 : d0 = 0 <;> by_cases hd1 : d1 = 0 <;> by_cases hd2 : d2 = 0 <;>
+    simp only [hd0, hd1, hd2, if_true, if_false] <;>
+    repeat (first | rfl | (split <;> simp only [*]))
+
 end Romea.Bridge.C15
